@@ -33,6 +33,8 @@ static int nslot;                 /* slots handed out so far */
 static int n_create, n_free;      /* callback counters */
 static int fail_next_create;      /* next create_unit returns ABT_UNIT_NULL */
 static int create_failed;
+static ABT_thread mig_watch = ABT_THREAD_NULL; /* see I_MIGRATE */
+static const int *mig_watch_started;
 static char logbuf[400];
 static int loglen;
 
@@ -132,6 +134,8 @@ static ABT_unit up_create(int p, ABT_thread thread)
                     "create_unit called for a work unit that already has live "
                     "unit #%d in the same pool %d (log: %s)", i, p, logbuf);
     abtmc_check(nslot < NSLOT, "harness", "out of unit slots");
+    if (mig_watch != ABT_THREAD_NULL && thread == mig_watch && p == 1)
+        mig_at = mig_watch_started ? *mig_watch_started : 0;
     int s = nslot++;
     urec[s].state = U_LIVE;
     urec[s].thread = thread;
@@ -357,6 +361,7 @@ static int nw;
 static char ranon[NW + 1];
 static int go_flag;              /* hooked: set after the migration request */
 static int wpoll[NW];            /* unit first polls go_flag, yielding */
+static int wslices[NW];          /* yields done so far */
 
 static void wbody(int id, void *arg)
 {
@@ -370,10 +375,14 @@ static void wbody(int id, void *arg)
     ABT_xstream_self_rank(&rank);
     ranon[id] = (char)('0' + rank);
     if (wpoll[id])
-        while (!abtmc_load(&go_flag))
+        while (!abtmc_load(&go_flag)) {
+            wslices[id] = 1;
             OK(ABT_thread_yield());
-    for (int y = 0; y < wyields[id]; y++)
+        }
+    for (int y = 0; y < wyields[id]; y++) {
+        wslices[id] = 2 + y;
         OK(ABT_thread_yield());
+    }
     wdone[id]++;
 }
 #define WFN(n) static void wfn##n(void *a) { wbody(n, a); }
@@ -798,6 +807,9 @@ static void scenario_seq(void)
 static ABT_thread PARKED;
 static int parked_pool = 2;  /* UP[2]: never served */
 static int obs_rounds;
+static char obs_live[4]; /* live units of the bucket seen at each observation */
+static int mig_at = -1;  /* slices the migrating ULT had started when its unit in
+                            the target pool was created */
 static ABT_pool SERVED, SERVED2;
 static int served_idx, served2_idx;
 
@@ -806,6 +818,7 @@ static void observer(void *arg)
     (void)arg;
     for (int r = 0; r < 2; r++) {
         check_translation(PARKED, parked_pool, "observer");
+        obs_live[r] = (char)('0' + live_units());
         obs_rounds++;
         abtmc_progress();
     }
@@ -896,6 +909,8 @@ static void scenario_conc(void)
             wpoll[nw] = 1;
             int id = new_work_unit(SERVED, 0, 1);
             named[nn++] = id;
+            mig_watch_started = &wslices[id];
+            mig_watch = W[id];
             OK(ABT_thread_migrate_to_pool(W[id], SERVED2));
             abtmc_store(&go_flag, 1);
             break;
@@ -908,8 +923,7 @@ static void scenario_conc(void)
         default: /* I_MIXED */
             x1 = abtmc_thread_create(observer, NULL);
             named[nn++] = new_work_unit(SERVED, 0, 1);
-            new_work_unit(SERVED, 2, 0);
-            named[nn++] = new_work_unit(SERVED, 1, 0);
+            new_work_unit(SERVED, 3, 0);
             break;
     }
     for (int i = 0; i < nn; i++) {
@@ -934,6 +948,11 @@ static void scenario_conc(void)
             abtmc_check(wstart[w] == 1 && wdone[w] == 1, "lost_unit",
                         "ABT_xstream_join returned, work unit %d: starts=%d "
                         "completions=%d (log: %s)", w, wstart[w], wdone[w], logbuf);
+    if (C->icase == I_MIGRATE)
+        abtmc_check(n_create == 3 && mig_at >= 0, "migration_units",
+                    "migration SERVED->SERVED2 requested before the ULT's last "
+                    "yield: %d create_unit calls instead of 3 (log: %s)", n_create,
+                    logbuf);
     /* only the parked unit is left */
     abtmc_check(live_units() == 1 && n_create == n_free + 1, "unit_leak",
                 "%d live units (creates %d frees %d) with one work unit left "
@@ -957,8 +976,8 @@ static void scenario_conc(void)
     for (int w = 0; w < nw; w++)
         if (!ranon[w])
             ranon[w] = '-';
-    abtmc_observe("ran=%s mig=%d chain=%d", ranon,
-                  C->icase == I_MIGRATE ? n_create - 2 : 0, maxchain);
+    abtmc_observe("ran=%s seen=%s mig=%d chain=%d", ranon, obs_live, mig_at,
+                  maxchain);
     OK(ABT_xstream_free(&es1));
     for (int p = 0; p < NUPOOL; p++)
         OK(ABT_pool_free(&UP[p].handle));
